@@ -66,6 +66,7 @@ def operand_texts(rng):
     r = rng.choice(REGS)
     r2 = rng.choice(REGS)
     e = rng.randrange(0, 16)
+    big = rng.choice([16, 17, 99, 200, 255])
     lab = rng.choice(sorted(LABELS))
     sp = rng.choice(['', ' '])
     return [
@@ -83,6 +84,9 @@ def operand_texts(rng):
         {'cls': 'word', 'w': lab, 'e': LABELS[lab], 'text': lab},              # a label; also a key when spelled like one
         {'cls': 'word', 'w': 'one', 'e': None, 'text': 'one'},                 # a key that is not a label
         {'cls': 'num', 'e': e, 'text': str(e)},
+        # a literal beyond the 0..15 range of the numeric_bytecode alternative: which alternative / variant takes a numeric
+        # text does not depend on its value (the chosen one then rejects it)
+        {'cls': 'num', 'e': big, 'text': str(big), 'big': True},
         {'cls': 'num', 'e': LABELS[lab] + 1, 'text': f'{lab}+1', 'lab': lab, 'expr': True},
         {'cls': 'dreg', 'r': r, 'dec': ('minus', True), 'text': f'-{r}'},        # a decorated register, or a negated register "value"
         {'cls': 'dreg', 'r': r, 'dec': ('plus', False), 'text': f'{r}+'},
@@ -181,7 +185,8 @@ class C13(core.Check):
         'reject:register-inside-expression', 'reject:no-variant-takes-count', 'mnemonic:upper', 'mnemonic:mixed',
         'chosen:variant>=2', 'chosen:specific', 'expect:ACCEPT', 'expect:REJECT',
         'later-candidate-after-nonaccepting-earlier', 'amb:disallowed-pair-mirrored-is-allowed', 'amb:two-specific-entries-accept',
-        'amb:key-vs-relative-address', 'amb:decorated-register-vs-numeric', 'amb:implied-operand-entry-vs-shorter-variant']}
+        'amb:key-vs-relative-address', 'amb:decorated-register-vs-numeric', 'amb:implied-operand-entry-vs-shorter-variant',
+        'amb:out-of-range-literal-with-later-accepting-candidate']}
 
     def gen_isa(self, rng, force_empty=False):
         pool = alt_pool(rng)
@@ -432,6 +437,8 @@ class C13(core.Check):
                         tags.add('amb:register-vs-numeric')
                     if o['cls'] == 'idx' and o.get('lab'):
                         tags.add('amb:indexed-vs-label-expression')
+            if 'reject:constraint' in tags and len(acc) >= 2 and any(o.get('big') for o in operands):
+                tags.add('amb:out-of-range-literal-with-later-accepting-candidate')
             if kind == 'ACCEPT' and any(o['cls'] == 'dreg' for o in operands):
                 tags.add('amb:decorated-register-vs-numeric')
             if kind == 'REJECT':
